@@ -1,7 +1,7 @@
 (* C08 property theorems: statements only, each closed by [exact]. *)
-From Boltons Require Import Lib.Prelude Lib.C08_Py Spec.C08_Spec Model.C08_Model
+From Boltons Require Import Lib.Prelude Lib.C08_Py Spec.C08_Spec Model.C08_Model Check.C08_Check
   Proofs.C08_Machine Proofs.C08_Tree Proofs.C08_Inject Proofs.C08_Cycle Proofs.C08_Paths
-  Proofs.C08_Copy Proofs.C08_Shared Proofs.C08_Reraise Proofs.C08_Witness.
+  Proofs.C08_Copy Proofs.C08_Shared Proofs.C08_Reraise Proofs.C08_Transfer Proofs.C08_Witness.
 
 (* The stack machine (work stack + exit sentinels + id registry + new_items_stack
    + path) IS the bottom-up recursion: for every input term (shared and cyclic
@@ -85,6 +85,25 @@ Print Assumptions C08_machine_refines_spec_partial.
 Example C08_refines_inhabited_by_a_cycle :
   imm_backref [] ex_cyclic = false /\ exists v m lg, spec_remap None ex_cyclic = Done v m lg.
 Proof. exact ex_cyclic_ok. Qed.
+
+(* THE BRIDGE TO THE CHECKER: outside the same guard, an observation that agrees
+   with the model (result, visit calls, enter/exit calls - the conjuncts of `agree`
+   in Check/C08_Check.v) satisfies the Spec clause [ok_rebuild] that `holds`
+   evaluates - for every visit program of the harness language, raising ones
+   included, and both values of reraise_visit.  Hence on every run on which
+   `agree` is true the rebuild clause holds for the code by this theorem. *)
+Theorem C08_agree_implies_rebuild_partial : forall c,
+  imm_backref [] (c_in c) = false ->
+  res_eqb obj_eqb (outcome_result (model_remap c)) (canon_res (c_out c)) = true ->
+  list_eqb vcall_eqb (outcome_calls (model_remap c)) (c_calls c) = true ->
+  hooks_match (model_remap c) (c_hooks c) = true ->
+  ok_rebuild c = true.
+Proof. exact agree_implies_rebuild. Qed.
+Print Assumptions C08_agree_implies_rebuild_partial.
+
+Example C08_agree_inhabited :
+  imm_backref [] (c_in ex_case) = false /\ agree ex_case = true /\ c08_verdict ex_case = (true, true, false).
+Proof. exact ex_case_ok. Qed.
 
 (* FULL STATEMENT (refuted for the code as it is):
      forall visit root, remap visit (collect_defs root) root = spec_remap visit root
